@@ -79,6 +79,21 @@ func handlePeerMsg(sessionMap map[string][]interface{}, sessionReq map[string]re
 		}
 	default:
 	}
+	switch respFromPeer := content.(type) {
+	case *Response:
+		// a Responses message is sent again when its acknowledgement was lost; a repeated
+		// response must not fill the batch in place of a missing one
+		if respFromPeer == nil || respFromPeer.Response == nil {
+			return
+		}
+		for _, rr := range sessionMap[sessionID] {
+			r, ok := rr.(*Response)
+			if ok && r.Index == respFromPeer.Index && r.Response.Index == respFromPeer.Response.Index {
+				return
+			}
+		}
+	default:
+	}
 	sessionMap[sessionID] = append(sessionMap[sessionID], content)
 	if len(sessionMap[sessionID]) == sessionReq[sessionID].numOfResps {
 		select {
